@@ -12,7 +12,7 @@ use crate::util::J;
 
 pub struct C15;
 
-const ALPHA: [&str; 7] = ["$", "\\", "0", "1", "2", "9", "a"];
+const ALPHA: [&str; 8] = ["$", "\\", "0", "1", "2", "9", "a", "\u{663}"];
 
 struct Pat {
     text: &'static str,
@@ -70,6 +70,23 @@ fn pats() -> Vec<Pat> {
             flags: "i",
             groups: 1,
             inputs: vec![("q", vec![], vec!["q"]), ("a\u{17f}t", vec![vec![Some("\u{17f}t"), Some("t")]], vec!["a", ""]), ("ST.st", vec![vec![Some("ST"), Some("T")], vec![Some("st"), Some("t")]], vec!["", ".", ""])],
+        },
+        // groups that the compiler folds away still count (and number) as groups
+        Pat {
+            text: "(a){0}(b)",
+            flags: "",
+            groups: 2,
+            inputs: vec![("q", vec![], vec!["q"]), ("xbx", vec![vec![Some("b"), None, Some("b")]], vec!["x", "x"])],
+        },
+        Pat {
+            text: "(a)(b)(c)(d)(e)(f)(g)(h)(i)(j){0}",
+            flags: "",
+            groups: 10,
+            inputs: vec![(
+                "abcdefghi-",
+                vec![vec![Some("abcdefghi"), Some("a"), Some("b"), Some("c"), Some("d"), Some("e"), Some("f"), Some("g"), Some("h"), Some("i"), None]],
+                vec!["", "-"],
+            )],
         },
         // a group captured on a path that is abandoned contributes nothing
         Pat {
